@@ -27,8 +27,13 @@ def validate_tensor(y, deep=True):
     shapes = list(y.get_blocks_shape())
     if len(keys) != len(shapes):
         return ('blocks', 'get_blocks_charge / get_blocks_shape lengths differ')
-    if any(not (k0 < k1) for k0, k1 in zip(keys, keys[1:])):
-        return ('blocks_order', f'block keys not strictly increasing: {keys}')
+    if len(set(keys)) != len(keys):
+        return ('blocks_order', f'block keys not unique: {keys}')
+    # blocks are stored in increasing order of their native keys; with a pending transpose get_blocks_charge() lists the same blocks
+    # with charges in logical leg order, so the order is examined on the materialised tensor
+    skeys = keys if tuple(y.trans) == tuple(range(y.ndim_n)) else list(y.consume_transpose().get_blocks_charge())
+    if any(not (k0 < k1) for k0, k1 in zip(skeys, skeys[1:])):
+        return ('blocks_order', f'block keys not strictly increasing: {skeys}')
     ndn = y.ndim_n
     if any(len(k) != ndn * ns for k in keys):
         return ('blocks', f'block key length != ndim_n * NSYM: {keys}')
